@@ -19,7 +19,7 @@ D21 == "D21-optional-call-loses-receiver"
 D7b == "D7b-nonconstant-sum-operand-omitted"
 
 Judge(r) ==
-  \E why \in {Why(r.inlog, r.outlog, r.inout, r.outout, r.primfault)} :
+  \E why \in {Why(r.inlog, r.outlog, r.inout, r.outout, r.primfault, r.swallow)} :
   \* with a spread this-argument (m.call(...s, ..)) receiver and arguments cannot be told apart statically:
   \* the call-event comparison of method hooks is not applied to such programs
   \E hookwhys \in {{HookWhyDyn(IF r.spreadthis /\ r.hooks[i].check = "log" THEN [r.hooks[i] EXCEPT !.check = "skip"] ELSE r.hooks[i], r.outlog)
